@@ -1252,10 +1252,10 @@ condexpr(struct scope *s)
 
 	lt = l->type;
 	rt = r->type;
-	if (lt == rt) {
-		t = lt;
-	} else if (lt->prop & PROPARITH && rt->prop & PROPARITH) {
+	if (lt->prop & PROPARITH && rt->prop & PROPARITH) {
 		t = commonreal(&l, &r);
+	} else if (lt == rt) {
+		t = lt;
 	} else if (lt == &typevoid && rt == &typevoid) {
 		t = &typevoid;
 	} else {
